@@ -675,7 +675,7 @@ func (g *Generator) generateScalarFieldUnmarshal(
 	gf.P("// Handle field: ", fieldName)
 	gf.P(`if rawField, ok := raw["`, jsonName, `"]; ok {`)
 	if field.Message != nil {
-		gf.P("x.", fieldName, " = &", field.Message.GoIdent.GoName, "{}")
+		gf.P("x.", fieldName, " = &", field.Message.GoIdent, "{}")
 		gf.P("if err := protojson.Unmarshal(rawField, x.", fieldName, "); err != nil {")
 		gf.P("return err")
 		gf.P("}")
